@@ -436,15 +436,46 @@ func ruleVersionNegotiation(c *Ctx) {
 		}
 		return true
 	})
-	if matchRet == nil || inner == nil || inner.Value == nil {
+	var containsList *types.Var
+	if matchRet == nil {
+		// alternative idiom: if slices.Contains(offered, version) { return ... }
+		ast.Inspect(outer.Body, func(x ast.Node) bool {
+			if _, isRange := x.(*ast.RangeStmt); isRange {
+				return false
+			}
+			if r, ok := x.(*ast.ReturnStmt); ok && len(r.Results) == 3 && matchRet == nil {
+				matchRet = r
+			}
+			return true
+		})
+	}
+	if matchRet == nil || (inner != nil && inner.Value == nil) {
 		und("match return")
 		return
 	}
-	iv := identObj(info, inner.Value)
 	retN := g.NodeOf(matchRet)
+	var iv types.Object
+	if inner != nil {
+		iv = identObj(info, inner.Value)
+	}
 	okMatch := retN != nil && g.OnlyViaEdge(retN, func(e *Edge) bool {
 		at, isAt := edgeAtom(info, e)
-		if !isAt || at.Kind != "cmp" || at.Op != token.EQL {
+		if !isAt {
+			return false
+		}
+		if inner == nil {
+			if at.Kind != "call" || !at.True {
+				return false
+			}
+			call := at.X.(*ast.CallExpr)
+			nm := p.CalleeName(f, call)
+			if (nm != "slices.Contains" && nm != "golang.org/x/exp/slices.Contains") || len(call.Args) != 2 || !isVer(identObj(info, call.Args[1])) {
+				return false
+			}
+			containsList, _ = identObj(info, call.Args[0]).(*types.Var)
+			return containsList != nil
+		}
+		if at.Kind != "cmp" || at.Op != token.EQL {
 			return false
 		}
 		a, b := identObj(info, at.X), identObj(info, at.Y)
@@ -456,12 +487,35 @@ func ruleVersionNegotiation(c *Ctx) {
 		c.R.Violate("R-NEG", p.Pos(matchRet), f.Name, "match is equality of offered and served version", "a version can be announced without being equal to one the host offered", nil)
 	}
 	// the host's list is the parsed PLUGIN_PROTOCOL_VERSIONS
-	cl, _ := identObj(info, inner.X).(*types.Var)
+	var cl *types.Var
+	var clSite ast.Node = matchRet
+	if inner != nil {
+		cl, _ = identObj(info, inner.X).(*types.Var)
+		clSite = inner
+	} else {
+		cl = containsList
+	}
 	okCL := false
 	if cl != nil {
+		// the list variable and the locals it is copied from
+		lists := map[types.Object]bool{cl: true}
+		for round := 0; round < 3; round++ {
+			ast.Inspect(f.Body, func(x ast.Node) bool {
+				if as, ok := x.(*ast.AssignStmt); ok && len(as.Lhs) == len(as.Rhs) {
+					for i, l := range as.Lhs {
+						if lists[identObj(info, l)] {
+							if o := identObj(info, as.Rhs[i]); o != nil {
+								lists[o] = true
+							}
+						}
+					}
+				}
+				return true
+			})
+		}
 		ast.Inspect(f.Body, func(x ast.Node) bool {
 			as, ok := x.(*ast.AssignStmt)
-			if !ok || len(as.Lhs) != 1 || identObj(info, as.Lhs[0]) != cl {
+			if !ok || len(as.Lhs) != 1 || !lists[identObj(info, as.Lhs[0])] {
 				return true
 			}
 			if call, ok := ast.Unparen(as.Rhs[0]).(*ast.CallExpr); ok && p.CalleeName(f, call) == "builtin.append" && len(call.Args) == 2 {
@@ -485,9 +539,9 @@ func ruleVersionNegotiation(c *Ctx) {
 		}
 	}
 	if okCL && envOK {
-		c.R.Hold("R-NEG", p.Pos(inner), f.Name, "offered list is the parsed PLUGIN_PROTOCOL_VERSIONS", "each element is strconv.Atoi of a comma-separated field; unparsable fields are skipped", true)
+		c.R.Hold("R-NEG", p.Pos(clSite), f.Name, "offered list is the parsed PLUGIN_PROTOCOL_VERSIONS", "each element is strconv.Atoi of a comma-separated field; unparsable fields are skipped", true)
 	} else {
-		c.R.Violate("R-NEG", p.Pos(inner), f.Name, "offered list is the parsed PLUGIN_PROTOCOL_VERSIONS", "the list matched against is not the host's offered versions", nil)
+		c.R.Violate("R-NEG", p.Pos(clSite), f.Name, "offered list is the parsed PLUGIN_PROTOCOL_VERSIONS", "the list matched against is not the host's offered versions", nil)
 	}
 	// (4) the returned triple
 	chkTriple := func(r *ast.ReturnStmt, what string) {
@@ -564,7 +618,29 @@ func ruleVersionNegotiation(c *Ctx) {
 			}
 		}
 	}
-	if buildRange != nil && foldN != nil {
+	// alternative idiom: list := slices.Collect(maps.Keys(VersionedPlugins)) / maps.Keys(...)
+	var collectN *Node
+	for _, m := range g.Nodes {
+		as, ok := m.Ast.(*ast.AssignStmt)
+		if !ok || len(as.Lhs) != 1 || len(as.Rhs) != 1 || identObj(info, as.Lhs[0]) != sv {
+			continue
+		}
+		ast.Inspect(as.Rhs[0], func(x ast.Node) bool {
+			if call, ok := x.(*ast.CallExpr); ok && strings.HasSuffix(p.CalleeName(f, call), "maps.Keys") && len(call.Args) == 1 && SelField(info, call.Args[0]) == vpF {
+				collectN = m
+			}
+			return true
+		})
+	}
+	if buildRange == nil && collectN != nil && foldN != nil {
+		_, before := g.ReachAfter(foldN, nil, nil)[collectN]
+		_, afterwards := g.ReachAfter(collectN, nil, nil)[foldN]
+		if before && !afterwards {
+			c.R.Hold("R-NEG", p.Pos(collectN.Ast), f.Name, "served list = keys of the map incl. legacy fields", "maps.Keys(VersionedPlugins) is taken after the legacy ProtocolVersion/Plugins were stored into the map", true)
+		} else {
+			c.R.Violate("R-NEG", p.Pos(collectN.Ast), f.Name, "served list = keys of the map incl. legacy fields", "the legacy fields are folded in after the key list was built", nil)
+		}
+	} else if buildRange != nil && foldN != nil {
 		brN := g.NodeOf(buildRange.X)
 		_, before := g.ReachAfter(foldN, nil, nil)[brN]
 		_, afterwards := g.ReachAfter(brN, nil, nil)[foldN]
